@@ -1,22 +1,34 @@
 #!/usr/bin/env python3
-"""Mutation self-test: applies each one-edit mutant to /repo's working tree (in place, reverted immediately),
-runs the named check and expects it to fire with the named key fragment; also expects silence on the pristine tree.
+"""Mutation self-test: applies each one-edit mutant to a scratch git worktree of /repo (outside /repo and /verif, with its own facts /
+target directory; removed with --clean), runs the named check against that copy (VERIF_REPO / VERIF_WORK) and expects it to fire with
+the named key fragment; also expects silence on the pristine copy.
 
-usage: selftest/run.py [name-substring ...]      (never run while a test suite is running on /repo itself)"""
+usage: selftest/run.py [--clean] [name-substring | property ...]"""
 import os, subprocess, sys, time
 HERE = os.path.dirname(os.path.abspath(__file__))
 VERIF = os.path.dirname(HERE)
 sys.path.insert(0, HERE)
 from mutants import MUTANTS
-REPO = "/repo"
+REPO = os.environ.get("SELFTEST_REPO", "/tmp/verif-selftest/repo")
+WORK = os.environ.get("SELFTEST_WORK", "/tmp/verif-selftest/work")
 
 
 def sh(cmd, cwd=VERIF):
-    return subprocess.run(cmd, cwd=cwd, shell=True, capture_output=True, text=True)
+    env = dict(os.environ, VERIF_REPO=REPO, VERIF_WORK=WORK)
+    return subprocess.run(cmd, cwd=cwd, shell=True, capture_output=True, text=True, env=env)
 
 
 def main():
-    sel = sys.argv[1:]
+    sel = [a for a in sys.argv[1:] if not a.startswith("--")]
+    if "--clean" in sys.argv:
+        subprocess.run("git -C /repo worktree remove --force %s; rm -rf %s" % (REPO, os.path.dirname(WORK)), shell=True)
+        return 0
+    if not os.path.isdir(REPO):
+        os.makedirs(os.path.dirname(REPO), exist_ok=True)
+        subprocess.run("git -C /repo worktree add --detach %s HEAD" % REPO, shell=True, capture_output=True)
+    else:
+        subprocess.run("git -C %s checkout -q --detach $(git -C /repo rev-parse HEAD) && git -C %s checkout -q -- ." % (REPO, REPO), shell=True)
+    os.makedirs(os.path.join(WORK, "facts"), exist_ok=True)
     st = sh("git status --porcelain", REPO).stdout.strip()
     if st:
         print("refusing: /repo has uncommitted changes:\n" + st)
